@@ -13,6 +13,19 @@ def harmless (c : Cfg) : G2State → List G2Action → Prop
     | some x' => harmless c x' as
     | none => True
 
+def harmlessDec (c : Cfg) : ∀ (x : G2State) (tr : List G2Action), Decidable (harmless c x tr)
+  | _, [] => isTrue trivial
+  | x, a :: as =>
+    match h : g2step c x a with
+    | some x' =>
+      have := harmlessDec c x' as
+      decidable_of_iff ((a = .joinGiveUp .reader → x.g.cur.rpc.pastSource = true) ∧ harmless c x' as)
+        (by simp [harmless, h])
+    | none =>
+      decidable_of_iff (a = .joinGiveUp .reader → x.g.cur.rpc.pastSource = true) (by simp [harmless, h])
+
+instance (c : Cfg) (x : G2State) (tr : List G2Action) : Decidable (harmless c x tr) := harmlessDec c x tr
+
 def Ph.joining : Ph → Bool
   | .joinS | .joinW _ => true
   | _ => false
